@@ -55,7 +55,11 @@ RULE = (
     "content type and across a 307 redirect, parse_form_data with and without stream_factory, parameter_storage_class "
     "MultiDict / dict, Request.values, EnvironBuilder.from_environ), non-str values. foreign: names x filenames x 8 "
     "Content-Disposition styles other clients use (token, RFC 2231 extended utf-8 / latin-1 / with language, "
-    "continuations, folded header). "
+    "continuations, folded header). long: a 40 000-character text field of 2-, 3- and 4-byte characters with pads "
+    "0..3 (every byte offset of a character meets the 64 KiB read) through all pipelines; buf: short non-ASCII "
+    "values x MultiPartParser(buffer_size=1..17, 64); streams: the request body arriving through BytesIO / a "
+    "read()-only / a readinto() stream delivering <=1, 7, 64 bytes per call, with CONTENT_LENGTH or "
+    "wsgi.input_terminated, for every api part list and a urlencoded sub-space. "
     "non-trivial = a case whose payload/name is not plain letters (contains CR, LF, '-', quote, %, non-ASCII, NUL "
     "or a near-delimiter) or that has more than one part."
 )
@@ -491,6 +495,60 @@ def sweep_check(cp: int):
 
 
 
+# ------------------------------------------------------------------ fragmenting input streams
+# Requests arrive over streams that deliver what they have: at most k bytes per read.
+
+
+class ShortRead:
+    """wsgi.input that only has read(); read(n) returns at most k bytes, read() everything that is left."""
+
+    def __init__(self, data: bytes, k: int):
+        self.data, self.k, self.pos = data, k, 0
+
+    def read(self, size=-1):
+        left = len(self.data) - self.pos
+        n = left if size is None or size < 0 else min(size, self.k, left)
+        out = self.data[self.pos : self.pos + n]
+        self.pos += n
+        return out
+
+
+class ShortReadInto(io.RawIOBase):
+    """Raw stream with readinto(); every readinto delivers at most k bytes."""
+
+    def __init__(self, data: bytes, k: int):
+        self.data, self.k, self.pos = data, k, 0
+
+    def readable(self):
+        return True
+
+    def readinto(self, b):
+        n = min(len(b), self.k, len(self.data) - self.pos)
+        b[:n] = self.data[self.pos : self.pos + n]
+        self.pos += n
+        return n
+
+
+STREAM_CONFIGS = [("bytesio", 0, "terminated")] + [
+    (cls, k, mode) for cls in ("read", "readinto") for k in (1, 7, 64) for mode in ("length", "terminated")
+]
+
+
+def stream_label(cfg) -> str:
+    return "stream:%s:%d:%s" % cfg
+
+
+def fragment_input(env, cfg):
+    """Replace wsgi.input of a built environ by a fragmenting stream over the same body."""
+    cls, k, mode = cfg
+    body = env["wsgi.input"].read()
+    env["wsgi.input"] = io.BytesIO(body) if cls == "bytesio" else (ShortRead if cls == "read" else ShortReadInto)(body, k)
+    if mode == "terminated":
+        env.pop("CONTENT_LENGTH", None)
+        env["wsgi.input_terminated"] = True
+    return env
+
+
 # ------------------------------------------------------------------ API forms
 # The same part list handed over / read back through every documented way of doing it.
 
@@ -498,7 +556,7 @@ API_VARIANTS = [
     "dict", "ct-with-boundary", "filestorage", "openfile", "pathstr", "attrs", "body-bytes-token", "body-bytes-quoted", "body-stream",
     "body-bytesio-data", "client", "client-ct", "client-307", "parse_form_data", "cls-multidict", "cls-dict",
     "values", "from_environ", "stream_factory",
-]
+] + [stream_label(c) for c in STREAM_CONFIGS]
 
 
 class _owned_boundary:
@@ -623,6 +681,9 @@ def run_api(variant: str, parts, tmpdir: str):
                 b = EnvironBuilder(method="POST", data=MultiDict(to_values(parts, True)), **force)
             builders.append(b)
             env = b.get_environ()
+        if variant.startswith("stream:"):
+            cfg = STREAM_CONFIGS[[stream_label(c) for c in STREAM_CONFIGS].index(variant)]
+            return _read_request(Request(fragment_input(env, cfg))), exp_parts
         if variant == "parse_form_data":
             stream, form, files = parse_form_data(env)
             return (list(form.items(multi=True)), read_files(files)), exp_parts
@@ -976,6 +1037,81 @@ def check_ue_forms(pairs, exp):
     return fails
 
 
+def check_ue_streams(pairs):
+    """EnvironBuilder(data=mapping) -> Request.form with the body arriving in fragments."""
+    fails = []
+    pairs = list(pairs)
+    exp = grouped(pairs)
+    for cfg in STREAM_CONFIGS:
+        b = EnvironBuilder(method="POST", data=MultiDict(pairs))
+        try:
+            try:
+                env = fragment_input(b.get_environ(), cfg)
+                got = list(Request(env).form.items(multi=True))
+            except Exception as e:  # noqa: BLE001
+                got = ("EXC", f"{type(e).__name__}: {e}")
+        finally:
+            b.close()
+        if got != exp:
+            fails.append(("urlencoded:" + stream_label(cfg) + ":" + ("exception" if got and got[0] == "EXC" else "differs"),
+                          {"pipeline": stream_label(cfg), "expected": exp, "got": got}))
+    return fails
+
+
+def ue_stream_cases():
+    s1 = list(gen.strings(UA, 1))
+    for k in s1:
+        for v in s1:
+            yield ((k, v),)
+    small = list(itertools.product(["a", "", "&", "é"], ["", "1", "=", "+ ", "é"]))
+    for a in small:
+        for b in small:
+            yield (a, b)
+    yield (("a", "1"), ("a", "2"), ("b", ""), ("", "x"))
+    yield (("k" * 40, "v" * 100), ("é" * 30, "𝄞" * 30), ("z", ""))
+
+
+# ------------------------------------------------------------------ long / split text values
+
+LONG_CHARS = ["é", "€", "𝄞"]
+
+
+def long_cases():
+    """A non-ASCII text field long enough to be delivered in several Data events: every byte offset of a
+    multi-byte character meets the parser's 64 KiB read boundary for one of the pads."""
+    for ch in LONG_CHARS:
+        for pad in range(4):
+            v = "a" * pad + ch * 40_000
+            yield (fld("t", v), fld("u", "x" + ch))
+
+
+def buf_values():
+    seen = set()
+    for v in itertools.chain(gen.strings(["é", "€", "𝄞", "a", "\r\n"], 2, 1), ["é€𝄞" * 4, "a" * 5 + "𝄞" * 6, "€" * 9]):
+        if v not in seen:
+            seen.add(v)
+            yield v
+
+
+BUF_SIZES = list(range(1, 17)) + [17, 64]
+
+
+def check_buffered(value: str, kind: str, size: int):
+    """encode_multipart -> MultiPartParser(buffer_size=size): the public knob that decides how the body is cut."""
+    parts = (fld("t", value), fld("e", "é")) if kind == "field" else (fil("f", "n", value.encode()), fld("e", "é"))
+    exp = expect_form(parts, "parser")
+    try:
+        _b, body = encode_multipart(MultiDict(to_values(parts, False)), boundary="bnd")
+        form, files = MultiPartParser(buffer_size=size).parse(io.BytesIO(body), b"bnd", len(body))
+        got = (list(form.items(multi=True)), read_files(files))
+    except Exception as e:  # noqa: BLE001
+        got = ("EXC", f"{type(e).__name__}: {e}")
+    if got != exp:
+        return [("parser:buffer_size:" + diff_sig(exp, got),
+                 {"pipeline": "buffered", "expected": exp, "got": got})]
+    return []
+
+
 # ------------------------------------------------------------------ units
 
 N_MP = 96
@@ -992,6 +1128,8 @@ def units(tier):
     out += [("big", i, 0) for i in range(len(BIG) * 2)]
     out += [("api", i, N_API) for i in range(N_API)]
     out += [("foreign", 0, 1)]
+    out += [("long", i, 0) for i in range(len(LONG_CHARS) * 4)]
+    out += [("buf", 0, 1), ("uestream", 0, 2), ("uestream", 1, 2)]
     return out
 
 
@@ -1063,6 +1201,33 @@ def run_unit(unit, R, tier):
                     R.violation(sig, {"kind": "api", "sig": sig, "parts": [list(p) for p in parts], **d})
         finally:
             shutil.rmtree(tmpdir, ignore_errors=True)
+    elif kind == "long":
+        parts = list(long_cases())[unit[1]]
+        fails, ran = check_multipart(parts, 1)
+        R.ev(ran)
+        R.count("long_cases")
+        R.use("long:" + parts[0][4][-1])
+        R.nontrivial(("long", unit[1]))
+        for sig, d in fails:
+            slim = {k: (v if k not in ("expected", "got", "body") else core.show(v, 300)) for k, v in d.items()}
+            R.violation(sig, {"kind": "long", "sig": sig, "index": unit[1], **slim})
+    elif kind == "buf":
+        for v in buf_values():
+            for fk in ("field", "file"):
+                for size in BUF_SIZES:
+                    R.ev()
+                    R.count("buffered_runs")
+                    R.nontrivial(("buf", v, fk, size))
+                    for sig, d in check_buffered(v, fk, size):
+                        R.violation(sig, {"kind": "buf", "sig": sig, "value": v, "part": fk, "size": size, **d})
+    elif kind == "uestream":
+        _, idx, n = unit
+        for pairs in gen.shard(ue_stream_cases(), n, idx):
+            R.ev(len(STREAM_CONFIGS))
+            R.count("ue_stream_runs", len(STREAM_CONFIGS))
+            R.nontrivial(("uestream", pairs))
+            for sig, d in check_ue_streams(pairs):
+                R.violation(sig, {"kind": "uestream", "sig": sig, "pairs": [list(p) for p in pairs], **d})
     elif kind == "foreign":
         for style, name, filename in foreign_cases():
             fails, ran = check_foreign(style, name, filename)
@@ -1121,11 +1286,13 @@ def finalize(R, tier):
             "ue:repeated-key", "ue:empty-value", "ue:empty-key", "ue:forms"}
     need |= {"mp:BIG:%d" % n for n in BIG}
     need |= {"foreign:" + st for st in F_STYLES}
+    need |= {"long:" + ch for ch in LONG_CHARS}
     missing = need - R.used
     if missing:
         raise core.Broken(f"vacuity: never exercised {sorted(missing)}")
     for k, floor in (("multipart_cases", 40_000), ("urlencoded_cases", 50_000), ("sweep_code_points", 60_000),
-                     ("api_runs", 5_000), ("foreign_cases", 300)):
+                     ("api_runs", 5_000), ("foreign_cases", 300), ("long_cases", 12), ("buffered_runs", 1_000),
+                     ("ue_stream_runs", 5_000)):
         if R.counts[k] < floor:
             raise core.Broken(f"vacuity: only {R.counts[k]} {k}")
     if carriable(b"x\r\n--bnd\r\ny", b"bnd") or carriable(b"--bnd", b"bnd") or not carriable(b"x--bnd\r\n--bn", b"bnd"):
@@ -1171,6 +1338,17 @@ def replay(rec):
         finally:
             shutil.rmtree(tmpdir, ignore_errors=True)
         text = f"API form {rec['variant']!r} parts={core.show(parts, 600)}"
+    elif kind == "long":
+        parts = list(long_cases())[rec["index"]]
+        fails, _ = check_multipart(parts, 1)
+        text = f"long text field #{rec['index']}: {len(parts[0][4])} characters, {parts[0][4][:5]!r}..."
+    elif kind == "buf":
+        fails = check_buffered(rec["value"], rec["part"], rec["size"])
+        text = f"MultiPartParser(buffer_size={rec['size']}) {rec['part']} value {rec['value']!r}"
+    elif kind == "uestream":
+        pairs = tuple(tuple(p) for p in rec["pairs"])
+        fails = [f for f in check_ue_streams(pairs) if f[1]["pipeline"] == rec.get("pipeline")]
+        text = f"pairs={pairs!r} body arriving as {rec.get('pipeline')}"
     elif kind == "foreign":
         fails, _ = check_foreign(rec["style"], rec["name"], rec["filename"])
         text = f"foreign encoder style={rec['style']!r} name={rec['name']!r} filename={rec['filename']!r}"
